@@ -118,11 +118,18 @@ ArgProfiles(m) ==
     [] m = "Referrers" -> P3(StrVals, StrVals, StrVals)                                           \* repo, digest, artifactType
     [] OTHER -> {<<>>}
 
-\* The argument-independent outcome, spelled as a law over argument profiles (trivially true of
-\* Call; it is the real code that is judged against it, event by event).
-CallWithArgs(m, F, custom, nilRecv, av) == Call(m, F, custom, nilRecv)
+\* The context (first parameter of every method) is one more argument: a live one, one that is
+\* already cancelled, one whose deadline has passed, or the nil context.  The table does not look
+\* at it: an unset method fails the same way under each, the constructor is handed the context
+\* that was passed, and a set field is delegated with exactly that context.
+CtxVals == {"live", "cancelled", "expired", "nil"}
+
+\* The argument-independent outcome, spelled as a law over argument profiles and contexts
+\* (trivially true of Call; it is the real code that is judged against it, event by event).
+CallWithArgs(m, F, custom, nilRecv, av, cx) == Call(m, F, custom, nilRecv)
 ArgsIrrelevantAt(m, F, custom, nilRecv) ==
-  \A av \in ArgProfiles(m) : CallWithArgs(m, F, custom, nilRecv, av) = Call(m, F \cap {m}, custom, nilRecv)
+  \A av \in ArgProfiles(m) \cup {<<>>}, cx \in CtxVals :
+     CallWithArgs(m, F, custom, nilRecv, av, cx) = Call(m, F \cap {m}, custom, nilRecv)
 
 -----------------------------------------------------------------------------
 (* Properties (quantified over a family FS of field sets by the MC modules) *)
